@@ -916,6 +916,7 @@ Section ColumnsLocal.
     zsum (map cw cs) + dc * (zlen items - 1) <= fst s.
   Proof.
     unfold columns_fits. intro H. cbv zeta.
+    apply andb_true_iff in H as [H _]. apply andb_true_iff in H as [H _].
     apply andb_true_iff in H as [H H7]. apply andb_true_iff in H as [H H6].
     apply andb_true_iff in H as [H H5]. apply andb_true_iff in H as [H H4].
     apply andb_true_iff in H as [H H3]. apply andb_true_iff in H as [H1 H2].
@@ -925,6 +926,20 @@ Section ColumnsLocal.
     - apply Forall_forall. intros t Ht. specialize (H6 t Ht). unfold chh.
       apply andb_true_iff in H6 as [H6 H8]. split; [lia|]. intros r Er. rewrite Er in H8. lia.
     - unfold cw. lia.
+  Qed.
+
+  (* the static needs fit: what makes column_widths independent of the focus *)
+  Lemma columns_fits_static s :
+    columns_fits items fp dc mw s = true ->
+    0 <= dc /\ Forall (fun it : copt * bool * cinfo => 0 <= static_w (fst (fst it)) mw) items /\
+    zsum (map (fun it : copt * bool * cinfo => static_w (fst (fst it)) mw + dc) items) <= fst s + dc.
+  Proof.
+    unfold columns_fits. intro H.
+    apply andb_true_iff in H as [H H9]. apply andb_true_iff in H as [H H8].
+    apply andb_true_iff in H as [H _]. apply andb_true_iff in H as [H _].
+    apply andb_true_iff in H as [H _]. apply andb_true_iff in H as [_ H2].
+    split; [lia|]. split; [|lia].
+    apply Forall_forall. intros it Hit. rewrite forallb_forall in H8. specialize (H8 it Hit). lia.
   Qed.
 
   Lemma zsum_cw_nonneg l : Forall (fun t => 1 <= cw t) l -> 0 <= zsum (map cw l).
